@@ -164,7 +164,7 @@ class ModeRun:
         if via == 'event':
             # logged when dispatched (see _mk_req).  Some starts come as queue events: modes B and C use_wait_queue and
             # hold such an event until they stop
-            if kind == 'start' and self.rnd.random() < 0.4:
+            if kind == 'start' and (s.get('q') if s.get('q') is not None else self.rnd.random() < 0.4):
                 self.m.events.post_queue('vm_%s_%s' % (kind, m), callback=_nop, **kw)
             else:
                 self.m.events.post('vm_%s_%s' % (kind, m), **kw)
@@ -277,7 +277,11 @@ def handmade():
     S = lambda m, alt=False: {'op': 'req', 'm': m, 'kind': 'start', 'alt': alt}
     T = lambda m: {'op': 'req', 'm': m, 'kind': 'stop'}
     E = lambda m, n: {'op': 'ev', 'm': m, 'name': n}
+    Q = lambda m, q: {'op': 'req', 'm': m, 'kind': 'start', 'alt': False, 'q': q}
     return [
+        # a wait-queue mode started by a queue event, stopped, started by a plain event, stopped again (and the other way round)
+        [Q('C', True), T('C'), Q('C', False), T('C'), Q('C', True), T('C')],
+        [Q('B', False), T('B'), Q('B', True), T('B'), Q('B', False), T('B')],
         [S('A'), T('A')],
         # a rejected start must not change the priority of the running mode
         [S('A'), S('C'), S('A', True), S('C', True), T('A'), S('A', True), S('A')],
